@@ -486,7 +486,7 @@ Section Step.
     end.
 
   (* object.go readField: the value the field holds afterwards *)
-  Definition rf_step (t : gtype) (st : dstate) (bs : bytes) : dres dval :=
+  Definition rf_core (t : gtype) (st : dstate) (bs : bytes) : dres dval :=
     match t with
     | TStr => do (s, r) <- decode_string bs ;; Ok (DStr s, r, st)
     | TInt k => do (x, r) <- dec_field_kind k bs ;; Ok (DInt k x, r, st)
@@ -509,6 +509,18 @@ Section Step.
       end
     | TIface | TOther => Err ECodec
     | TPtr _ => Unmodelled
+    end.
+  (* readScalarTag: class definitions in front of the value of a field of scalar type are read
+     and registered first (the struct, list and map readers handle the definition tag themselves) *)
+  Definition scalar_type (t : gtype) : bool :=
+    match t with TStr | TInt _ | TBool | TF64 | TF32 => true | _ => false end.
+  Definition rf_step (t : gtype) (st : dstate) (bs : bytes) : dres dval :=
+    match bs with
+    | tag :: r =>
+      if scalar_type t && (tag =? g_objectDefTag)
+      then do (x, st1) <- read_class_def st r ;; rf t st1 (snd x)
+      else rf_core t st bs
+    | [] => rf_core t st bs
     end.
 
   (* map.go readMap(dest) *)
